@@ -626,6 +626,16 @@ func pathSearch(f *ssa.Function, from ssa.Instruction, fromBlock *ssa.BasicBlock
 		blocked := false
 		for k := s.idx; k < len(s.b.Instrs); k++ {
 			ins := s.b.Instrs[k]
+			if pathSearchSkipKnownErrorReturns {
+				// a return whose error result is known to be non-nil along this path is not a normal exit
+				if r, isR := ins.(*ssa.Return); isR && len(r.Results) > 0 {
+					last := r.Results[len(r.Results)-1]
+					if isNil, known := s.fc[last]; known && !isNil && isErrorType(last.Type()) {
+						blocked = true
+						break
+					}
+				}
+			}
 			if target(ins) {
 				var path []*ssa.BasicBlock
 				for t := s.trail; t != nil; t = t.prev {
@@ -721,6 +731,10 @@ func pathSearch(f *ssa.Function, from ssa.Instruction, fromBlock *ssa.BasicBlock
 	}
 	return false, nil, nil
 }
+
+// pathSearchSkipKnownErrorReturns: opt-in refinement of pathSearch (set around a call): "return err" where err
+// is known non-nil on the path taken ends the path without being a target.
+var pathSearchSkipKnownErrorReturns bool
 
 type trailNode struct {
 	b    *ssa.BasicBlock
